@@ -52,6 +52,7 @@ var filler = []string{"alpha", "beta", "gamma", "delta", "total", "north", "sout
 type genOpts struct {
 	StaleCovered  bool // covered cells of a merged region may carry a hidden value
 	RowRefOmitted bool // <row> elements may omit the optional r attribute
+	DamagedMerge  bool // <mergeCell> refs that name no A1 range (one corner unparseable) may be present; they merge nothing
 }
 
 // genWorkbook builds one workbook and its oracle. Every aspect draws from its
@@ -178,6 +179,30 @@ func genWorkbook(c *fw.Ctx, idx int, o genOpts) (*ooxml.XWorkbook, *wbModel) {
 				if ok {
 					rects = append(rects, q)
 				}
+			}
+		}
+		// damaged merge references: one corner is not an A1 reference (what a
+		// deleted row/column or a careless writer leaves behind). They name no
+		// region, so every cell keeps its own place; the intact corner is
+		// chosen so that a reader that "repairs" the ref swallows real cells.
+		if o.DamagedMerge && profile != "empty" {
+			rd := c.Rand("wb-damaged-merge", idx, si)
+			if rd.Intn(3) == 0 {
+				keys := sortedKeys(addrs)
+				a := keys[rd.Intn(len(keys))]
+				good := ooxml.XRef(a[1]+rd.Intn(3), a[0]+rd.Intn(3))
+				badCorner := []string{"#REF!", "", " " + ooxml.XRef(a[1], a[0]), "2B", "B", "A0", "$", "A-1"}[rd.Intn(8)]
+				var ref string
+				switch rd.Intn(4) {
+				case 0:
+					ref = good + ":" + badCorner
+				case 1:
+					ref = "#REF!"
+				default:
+					ref = badCorner + ":" + good
+				}
+				sh.RawMerges = append(sh.RawMerges, ref)
+				f.add("merge-ref-damaged")
 			}
 		}
 		coveredMode := map[[2]int]int{} // 0 absent, 1 blank styled cell, 2 stale value
